@@ -205,6 +205,7 @@ type Partial struct {
 	Assumptions  []string       `json:"assumptions"`
 	WallS        float64        `json:"wall_s"`
 	HashFile     string         `json:"hash_file"`
+	HashCapped   bool           `json:"hash_capped,omitempty"`
 }
 
 type ViolationRec struct {
@@ -292,6 +293,10 @@ func panicClass(msg string) string {
 	}
 	return strings.ToLower(strings.Join(f, "-"))
 }
+
+// maxHashes bounds the per-shard set of case hashes (memory); beyond it
+// distinct_nontrivial is a lower bound, which the evidence says.
+const maxHashes = 3 << 20
 
 var scratchDir string
 
@@ -492,7 +497,12 @@ func (r *runner[C]) evalFrom(c C, phase, file string) []Violation {
 		}
 		h := hashKey(key)
 		if _, dup := r.hashes[h]; !dup {
-			r.hashes[h] = struct{}{}
+			// the distinct count is exact up to a cap per shard and a lower bound beyond it
+			if len(r.hashes) < maxHashes {
+				r.hashes[h] = struct{}{}
+			} else {
+				r.p.HashCapped = true
+			}
 			r.sample(c, o, phase)
 		}
 	}
